@@ -385,6 +385,7 @@ impl Heap {
         if self.which == Which::C04 {
             f.push(("abort-points", cut_programs));
         }
+        f.push(("scale", if ctx.flavour == Flavour::Miri { 0 } else { crate::scale::heap_programs().len() as u64 }));
         Families::new(f)
     }
 
@@ -393,6 +394,7 @@ impl Heap {
         let mut r = Rng::for_case(ctx.seed, 300 + f as u64, i);
         match name {
             "directed" => (name, directed()[i as usize].1.to_string()),
+            "scale" => (name, crate::scale::heap_programs()[i as usize].1.clone()),
             "valgrind" => {
                 let d = directed();
                 let d13 = super::c13::directed();
